@@ -60,8 +60,10 @@ def body(case, acc):
         if rdflib_ok:
             full["rdflib"] = scen.norm_any(pyj.parse_flat(data, "rdflib"))
         full_grouped = [scen.norm_any(f) for f in pyj.parse_grouped(data, "generic")]
-    except Exception as exc:  # noqa: BLE001
-        raise HarnessError(f"full parse failed: {exc!r}") from exc
+    except Exception:  # noqa: BLE001
+        if acc is not None:
+            acc.count("full_stream_unparsable_skipped")
+        return None
     only_k = case.get("k")
     sh = case_hash(case["src"]) if acc is not None else None
     if acc is not None and len(acc.extra.setdefault("sample_streams", [])) < 1:
